@@ -136,7 +136,7 @@ def generate(family, rng, tier):
             designs.append({"signals": sigs, "duid_offset": 0, "slices": rng.randint(0, 6)})
         # "noffs": the tracer indices (the numbers in the back-traces) are shifted as well, as if earlier builds in the same process had
         # used the same class / attribute names: sibling numbering goes by rank, not by the absolute indices
-        return {"family": family, "designs": designs, "offsets": [0, 3, 250], "noffs": [0, 7, 6]}
+        return {"family": family, "designs": designs, "offsets": [0, 3, 250], "noffs": [0, 7, 6], "preconv": [0, 1, 3]}
     if family == "convert":
         designs = []
         for _ in range(8):
@@ -258,6 +258,13 @@ from litex.gen.fhdl import verilog
 import props.c02 as c02
 batch = json.load(sys.stdin)
 out = []
+for _ in range(batch.get("preconv", 0)):
+    # earlier, unrelated conversions in the same process (with sliced expressions): they must leave nothing behind that shows in later texts
+    mp = Module()
+    mp.clock_domains.cd_sys = ClockDomain("sys")
+    pa, pb, po = Signal(8, name_override="pa"), Signal(8, name_override="pb"), Signal(3, name_override="po")
+    mp.comb += po.eq((pa + pb)[2:5] ^ (pa - pb)[1:4])
+    verilog.convert(mp, ios={pa, pb, po}, name="pre")
 for d in batch["designs"]:
     boot.reset_globals()
     for _ in range(batch["offset"]):
@@ -360,7 +367,7 @@ def run_convert(scn):
         env["PYTHONHASHSEED"] = hs
         env["PYTHONPATH"] = boot.VERIF
         env["VERIF_REPO"] = boot.REPO
-        p = subprocess.run([sys.executable, "-c", WORKER % {"verif": boot.VERIF}], input=json.dumps({"designs": scn["designs"], "offset": off, "noff": (scn.get("noffs") or [0, 0, 0])[k_]}),
+        p = subprocess.run([sys.executable, "-c", WORKER % {"verif": boot.VERIF}], input=json.dumps({"designs": scn["designs"], "offset": off, "noff": (scn.get("noffs") or [0, 0, 0])[k_], "preconv": (scn.get("preconv") or [0, 0, 0])[k_]}),
                            capture_output=True, text=True, env=env, timeout=300)
         if p.returncode != 0:
             raise RuntimeError("convert worker failed: " + p.stderr[-1500:])
@@ -382,6 +389,16 @@ def run_convert(scn):
                 if g in KW or not IDENT.match(g):
                     V("reserved_identifier", "design #%d text" % di, "instance of %s is emitted under the identifier %r" % (ins["of"], g))
         decl = re.findall(r"^\s*(?:input|output|inout)?\s*(?:wire|reg)\s+(?:signed\s+)?(?:\[[^\]]+\]\s+)?([A-Za-z_][A-Za-z0-9_$]*)", a["text"], re.M)
+        # instance identifiers as the text has them ("<module type> <identifier>(" on one line): unique among themselves and against every
+        # declared signal / memory
+        inst_ids = []
+        for of_ in sorted({ins["of"] for ins in d.get("insts", [])}):
+            inst_ids += re.findall(r"^%s ([^\s(]+)\($" % re.escape(of_), a["text"], re.M)
+        checks += len(inst_ids)
+        dup_i = sorted({x for x in inst_ids if inst_ids.count(x) > 1 or x in decl})
+        if dup_i:
+            V("duplicate_identifier", "design #%d text" % di, "instance identifier(s) %s used more than once (instances %s, requested names %s)"
+              % (dup_i, inst_ids, [ins["name"] for ins in d.get("insts", [])]))
         checks += len(decl)
         dup = sorted({x for x in decl if decl.count(x) > 1})
         if dup:
